@@ -5,6 +5,7 @@ import JanetModel.Unmarsh.Bytes
 import JanetModel.Gen.UnmarshSites
 import JanetModel.Gen.VmAccess
 import JanetModel.Gen.PegAccess
+import JanetModel.Gen.ImageChecks
 import JanetModel.Bytecode.VerifyDefs
 import JanetModel.PegVerify.Defs
 namespace JanetModel.Unmarsh.Bytes
@@ -30,6 +31,8 @@ def cfg : Cfg :=
     threads := JanetModel.Gen.UnmarshSites.threads
     refChecked := JanetModel.Gen.UnmarshSites.refChecked
     envRefChecked := JanetModel.Gen.UnmarshSites.envRefChecked
-    defRefChecked := JanetModel.Gen.UnmarshSites.defRefChecked }
+    defRefChecked := JanetModel.Gen.UnmarshSites.defRefChecked
+    fnEnvCountChecked := JanetModel.Gen.ImageChecks.checks.fnEnvCount
+    defEnvIndexChecked := JanetModel.Gen.ImageChecks.checks.defEnvIndex }
 
 end JanetModel.Unmarsh.Bytes
